@@ -305,6 +305,9 @@ impl Envelope {
                         if !signature_object_subject.is_signature_from_key(&outer_signature, key) {
                             return None;
                         }
+                    } else if outer_signature_object.subject().is_obscured() {
+                        // An obscured outer signature cannot be checked either.
+                        return None;
                     } else {
                         return Some(Err(anyhow::anyhow!("Unexpected outer signature object type.")));
                     }
